@@ -20,8 +20,8 @@ PROPS["C11"] = dict(
               "WgslVerif.C11_total", "WgslVerif.C11_exec", "WgslVerif.firstClash_none", "WgslVerif.firstClash_some",
               "WgslVerif.denseB_iff"],
     streams=lambda tier, seed: (
-        [("fixtures",), ("c11", 3, 2, 3), ("c11rand", seed, 400), ("gen", "bindings", seed, 200)] if tier == "quick" else
-        [("fixtures",), ("c11", 3, 3, 4), ("c11", 4, 4, 3), ("c11rand", seed, 5000), ("gen", "bindings", seed, 3000)]),
+        [("fixtures",), ("c11", 3, 2, 3), ("c11long",), ("c11rand", seed, 400), ("gen", "bindings", seed, 200)] if tier == "quick" else
+        [("fixtures",), ("c11", 3, 3, 4), ("c11", 4, 4, 3), ("c11long",), ("c11rand", seed, 5000), ("gen", "bindings", seed, 3000)]),
     # validation off / on (option index bit layout: see harness/src/run.rs Opts::from_index)
     opts=q_opts([0, 48], [0, 48, 21, 90]),
     rule="cases: repo fixtures + every sequence (ordered, with repetition) of (@group,@binding) pairs over a small grid "
@@ -69,7 +69,8 @@ def family_cases(specs):
 
 def extra_c20(pid, tier, seed, workdir, known, write_replay):
     depths = [4, 8, 12, 16, 20, 24, 32, 48, 64] if tier == "quick" else [2, 4, 6, 8, 10, 12, 14, 16, 18, 20, 22, 24, 28, 32, 40, 48, 56, 64]
-    specs = [(f, n) for f in ("chain", "chainv", "diamond", "diamondpure", "diamondvoid", "nested") for n in depths] + [("fanout", n) for n in (8, 64, 200)] + \
+    specs = [(f, n) for f in ("chain", "chainv", "diamond", "diamondpure", "diamondvoid", "diamondptr", "nested") for n in depths] + [("fanout", n) for n in (8, 64, 200)] + \
+            [("chain", 200), ("chainv", 200), ("nestedifs", 14), ("nestedifs", 40)] + \
             [("nestedarr", n) for n in (4, 8, 12, 16, 20, 24)] + [("nesteddeep", n) for n in (16, 17, 32, 64)]
     cases = family_cases(specs)
     timeout_s = 20
@@ -117,9 +118,11 @@ PROPS["C03"] = dict(
               "WgslVerif.mem_callsOf_evFn", "WgslVerif.mem_usesOf_evFn"],
     streams=lambda tier, seed: (
         [("fixtures",), ("names",), ("gen", "callgraph", seed, 500), ("gen", "general", seed, 300), ("gen", "textures", seed, 100),
-         ("gen", "entries", seed, 100), ("family", "diamond", 5), ("family", "fanout", 12), ("family", "chainv", 9), ("pc", 3)] if tier == "quick" else
+         ("gen", "entries", seed, 100), ("family", "diamond", 5), ("family", "fanout", 12), ("family", "chainv", 9), ("family", "chain", 200), ("family", "chainv", 160), ("family", "nestedifs", 14),
+         ("family", "diamondptr", 6), ("pc", 3)] if tier == "quick" else
         [("fixtures",), ("names",), ("pc", 4), ("gen", "callgraph", seed, 12000), ("gen", "general", seed, 8000), ("gen", "textures", seed, 2000),
-         ("gen", "entries", seed, 2000), ("gen", "scale", seed, 400), ("family", "diamond", 7), ("family", "fanout", 40)]),
+         ("gen", "entries", seed, 2000), ("gen", "scale", seed, 400), ("family", "diamond", 7), ("family", "fanout", 40), ("family", "chain", 200), ("family", "chainv", 160),
+         ("family", "nestedifs", 14), ("family", "diamondptr", 8)]),
     opts=q_opts([0, 48], [0, 48, 21, 90]),
     rule="cases: fixtures + structured generator profiles callgraph/general/textures/entries (helper DAGs: chains, diamonds, shared helpers, "
          "fan-out; accesses and calls in if/else, switch, loop, continuing, break-if, nested blocks, value-returning calls in expressions; "
@@ -154,9 +157,9 @@ PROPS["C08"] = dict(
     theorems=["WgslVerif.C08", "WgslVerif.C08_mem", "WgslVerif.C08_nodup", "WgslVerif.structWanted_iff",
               "WgslVerif.globalVariableTypes_mem", "WgslVerif.typeArenaOkB_sound"],
     streams=lambda tier, seed: (
-        [("fixtures",), ("types",), ("names",), ("variants",), ("family", "nesteddeep", 17), ("family", "nesteddeep", 40), ("family", "nestedarr", 12),
+        [("fixtures",), ("types",), ("names",), ("variants",), ("entries",), ("provoke",), ("family", "nesteddeep", 17), ("family", "nesteddeep", 40), ("family", "nestedarr", 12),
          ("gen", "structs", seed, 500), ("gen", "general", seed, 300), ("gen", "vertex", seed, 150), ("gen", "entries", seed, 100)] if tier == "quick" else
-        [("fixtures",), ("types",), ("names",), ("variants",), ("family", "nesteddeep", 17), ("family", "nesteddeep", 64), ("family", "nestedarr", 12), ("gen", "structs", seed, 12000), ("gen", "general", seed, 6000), ("gen", "vertex", seed, 3000), ("gen", "entries", seed, 2000), ("gen", "scale", seed, 300)]),
+        [("fixtures",), ("types",), ("names",), ("variants",), ("entries",), ("provoke",), ("family", "nesteddeep", 17), ("family", "nesteddeep", 64), ("family", "nestedarr", 12), ("gen", "structs", seed, 12000), ("gen", "general", seed, 6000), ("gen", "vertex", seed, 3000), ("gen", "entries", seed, 2000), ("gen", "scale", seed, 300)]),
     opts=q_opts([4, 37, 6, 52], [4, 37, 70, 6, 3, 52, 95]),
     rule="cases: fixtures + generator profiles structs/general/vertex/entries (structs only in uniform/storage/private/workgroup variables, through arrays, nested arrays, "
          "nested structs, only as vertex input, vertex input and storage, fragment input, entry result, function-local, unused); non-trivial = the module has at least one struct type; "
@@ -184,8 +187,8 @@ PROPS["C04"] = dict(
     theorems=["WgslVerif.C04", "WgslVerif.groupFacts_spec", "WgslVerif.layoutFields_spec", "WgslVerif.bindEntries_spec",
               "WgslVerif.layoutEntries_binding", "WgslVerif.C11_ok_content", "WgslVerif.C11_exec"],
     streams=lambda tier, seed: (
-        [("fixtures",), ("names",), ("gen", "bindings", seed, 300), ("gen", "general", seed, 300), ("gen", "textures", seed, 150), ("c11rand", seed, 200)] if tier == "quick" else
-        [("fixtures",), ("names",), ("gen", "bindings", seed, 6000), ("gen", "general", seed, 6000), ("gen", "textures", seed, 3000), ("c11rand", seed, 4000), ("gen", "scale", seed, 300)]),
+        [("fixtures",), ("names",), ("c11long",), ("gen", "bindings", seed, 300), ("gen", "general", seed, 300), ("gen", "textures", seed, 150), ("c11rand", seed, 200)] if tier == "quick" else
+        [("fixtures",), ("names",), ("c11long",), ("gen", "bindings", seed, 6000), ("gen", "general", seed, 6000), ("gen", "textures", seed, 3000), ("c11rand", seed, 4000), ("gen", "scale", seed, 300)]),
     opts=q_opts([0, 48], [0, 48, 21, 90]),
     rule="cases: fixtures + generator profiles bindings/general/textures + random binding multisets (1..8 groups, sparse / unordered / u32-extreme binding indices, declaration order "
          "unrelated to index order, all resource kinds); non-trivial = at least one bound variable and generation succeeded; distinct = distinct WGSL text",
@@ -211,8 +214,8 @@ PROPS["C14"] = dict(
     lean_modules=["WgslVerif.Props.C14"],
     theorems=["WgslVerif.C14", "WgslVerif.fragmentTargetCount_eq", "WgslVerif.C14_legacy_counterexample", "WgslVerif.vertexEntryStructs_length", "WgslVerif.vertexInputOf_isSome"],
     streams=lambda tier, seed: (
-        [("fixtures",), ("names",), ("variants",), ("gen", "entries", seed, 500), ("gen", "general", seed, 300), ("gen", "vertex", seed, 200)] if tier == "quick" else
-        [("fixtures",), ("names",), ("variants",), ("gen", "entries", seed, 12000), ("gen", "general", seed, 6000), ("gen", "vertex", seed, 4000)]),
+        [("fixtures",), ("names",), ("variants",), ("entries",), ("provoke",), ("gen", "entries", seed, 500), ("gen", "general", seed, 300), ("gen", "vertex", seed, 200)] if tier == "quick" else
+        [("fixtures",), ("names",), ("variants",), ("entries",), ("provoke",), ("gen", "entries", seed, 12000), ("gen", "general", seed, 6000), ("gen", "vertex", seed, 4000)]),
     opts=q_opts([0, 48], [0, 48, 21, 90]),
     rule="cases: fixtures + generator profiles entries/general/vertex (0..3 entry points per stage, arbitrary names incl. non-ASCII, workgroup sizes from literals and constants, "
          "fragment results: none / bare location / builtin / struct with dense or sparse locations and builtins); non-trivial = at least one entry point; distinct = distinct WGSL text",
@@ -443,7 +446,7 @@ PROPS["C06"] = dict(
     streams=lambda tier, seed: (
         [("fixtures",), ("types",), ("names",), ("variants",), ("gen", "structs", seed, 400), ("gen", "general", seed, 200), ("gen", "vertex", seed, 100)] if tier == "quick" else
         [("fixtures",), ("types",), ("names",), ("variants",), ("gen", "structs", seed, 10000), ("gen", "general", seed, 5000), ("gen", "vertex", seed, 2000), ("gen", "scale", seed, 300)]),
-    opts=q_opts([4, 20, 36, 52, 18, 22, 17], [4, 20, 36, 52, 68, 84, 18, 22, 2, 34, 17, 33]),
+    opts=q_opts([4, 20, 36, 52, 18, 22, 17, 12], [4, 20, 36, 52, 68, 84, 18, 22, 2, 34, 17, 33, 12, 28]),
     rule="cases: fixtures + generator profiles structs/general/vertex under the three representations (encase on so that runtime arrays are emitted); all member types and nestings "
          "(arrays of arrays, arrays of structs, structs in structs, atomics, trailing runtime arrays, interleaved builtins); non-trivial = at least one struct emitted; distinct = distinct WGSL text",
     trusted_base=COMMON_TRUSTED + ["matrix denotation convention: matCxR<f32> = dims [R, C] in all representations (pinned by the repo's fixtures)"],
@@ -542,18 +545,32 @@ def extra_c16(pid, tier, seed, workdir, known, write_replay):
             made += 1
         except OSError:
             pass
-    d = subprocess.run([os.path.join(BIN, "dump"), "--opts", "0,48"], stdin=open(cases), stdout=subprocess.PIPE, text=True, cwd=pop)
-    v = subprocess.run([DRIVER, "C16"], input=d.stdout, stdout=subprocess.PIPE, text=True)
-    nfs = 0
-    for line in v.stdout.split("\n"):
-        if not line.startswith("V|C16|"):
-            continue
-        f = line.split("|", 6)
-        nfs += 1
-        for which in (f[5], f[4]):
-            if which.startswith("fail:"):
-                items.append(("c16#" + re.sub(r"[^A-Za-z0-9_.\-]", "-", which[5:].split(":")[0].split("#")[-1])[:40] + "-with-files-present",
-                              f"with a different file present at the include path: {which[5:200]}", f[2], True))
+    empty = os.path.join(workdir, "unpopulated")
+    shutil.rmtree(empty, ignore_errors=True)
+    os.makedirs(empty)
+
+    def verdicts(cwd):
+        d = subprocess.run([os.path.join(BIN, "dump"), "--opts", "0,48"], stdin=open(cases), stdout=subprocess.PIPE, text=True, cwd=cwd)
+        v = subprocess.run([DRIVER, "C16"], input=d.stdout, stdout=subprocess.PIPE, text=True)
+        res = {}
+        for line in v.stdout.split("\n"):
+            if line.startswith("V|C16|"):
+                f = line.split("|", 6)
+                res[(f[2], f[3])] = (f[4], f[5])
+        return res
+
+    with_files, without = verdicts(pop), verdicts(empty)
+    nfs = len(with_files)
+    for key, (corr, spec) in sorted(with_files.items()):
+        if spec.startswith("fail:"):
+            items.append(("c16#" + re.sub(r"[^A-Za-z0-9_.\-]", "-", spec[5:].split(":")[0].split("#")[-1])[:40] + "-with-files-present",
+                          f"with a different file present at the include path: {spec[5:200]}", key[0], True))
+        # what the correspondence says may not depend on the files: a disagreement that exists without them as well is the main
+        # pipeline's to report (as a correspondence failure), one that appears only with them is the generator looking at the file system
+        if (corr, spec) != without.get(key):
+            items.append(("c16#output-depends-on-files-present",
+                          f"option run {key[1]}: verdict with a different file present at the include path ({corr[:90]} / {spec[:60]}) differs from the verdict "
+                          f"in an empty directory ({without.get(key)})", key[0], True))
     cov["include_paths_populated"] = made
     cov["populated_runs"] = nfs
     if made == 0 or nfs == 0:
@@ -574,7 +591,8 @@ def extra_c16(pid, tier, seed, workdir, known, write_replay):
 
 
 PROPERTY_FAULTS = ["absent", "exit1-after-drain", "exit1-no-read", "kill-self", "kill-before-read", "kill-after-partial-output", "exit1-after-partial-output",
-                   "exit0-no-read-empty", "exit0-drain-empty", "slow-ok", "fail-once-partial-then-real", "exit1-noisy-stderr-0", "exit1-noisy-stderr-1", "real"]
+                   "exit0-no-read-empty", "exit0-drain-empty", "slow-ok", "fail-once-partial-then-real", "exit1-noisy-stderr-0", "exit1-noisy-stderr-1",
+                   "exit1-no-read-x6", "kill-before-read-x6", "real-with-RUSTFMT-env", "real"]
 
 
 def extra_c19(pid, tier, seed, workdir, known, write_replay):
@@ -675,7 +693,7 @@ def extra_c18(pid, tier, seed, workdir, known, write_replay):
         items.append(("determinism#harness-big", "determinism (large, rustfmt on) gave no summary: " + rb.stderr[-300:], "", False))
     # a formatter that merely takes long (6 s) must give byte for byte what a fast one gives
     fx = write_stream_file([("fixtures",)], os.path.join(workdir, "slow.cases"))
-    trials, err = run_faults(fx, 1, 0, ["real", "slow-6s-ok"], timeout=60)
+    trials, err = run_faults(fx, 1, 0, ["real", "slow-6s-ok", "real-with-RUSTFMT-env"], timeout=60)
     by = {}
     for cid, size, fault, oc, detail, same, th in trials:
         by.setdefault(cid, {})[fault] = (oc, th)
@@ -685,6 +703,8 @@ def extra_c18(pid, tier, seed, workdir, known, write_replay):
             nslow += 1
             if d["real"] != d["slow-6s-ok"]:
                 items.append(("determinism#slow-formatter", f"case {cid}: with a formatter that takes 6 s the result is {d['slow-6s-ok']}, with a fast one {d['real']}", cid, True))
+        if "real" in d and "real-with-RUSTFMT-env" in d and d["real"] != d["real-with-RUSTFMT-env"]:
+            items.append(("determinism#RUSTFMT-environment-variable", f"case {cid}: with the environment variable RUSTFMT set the result is {d['real-with-RUSTFMT-env']}, without it {d['real']}", cid, True))
     cov["slow_formatter_cases"] = nslow
     if nslow == 0:
         items.append(("determinism#harness-slow", "slow-formatter run gave no comparable pair: " + err, "", False))
@@ -815,8 +835,8 @@ PROPS["C07"] = dict(
               "WgslVerif.getVertexInputStructs_mem", "WgslVerif.locatedMembers_spec",
               "WgslVerif.vertexInputOf_name", "WgslVerif.dedupByName_sub", "WgslVerif.vertexEntryStructs_length"],
     streams=lambda tier, seed: (
-        [("fixtures",), ("names",), ("variants",), ("types", 2, seed), ("gen", "vertex", seed, 500), ("gen", "general", seed, 200), ("gen", "entries", seed, 100)] if tier == "quick" else
-        [("fixtures",), ("names",), ("variants",), ("types",), ("gen", "vertex", seed, 12000), ("gen", "general", seed, 5000), ("gen", "entries", seed, 2000)]),
+        [("fixtures",), ("names",), ("variants",), ("entries",), ("provoke",), ("types", 2, seed), ("gen", "vertex", seed, 500), ("gen", "general", seed, 200), ("gen", "entries", seed, 100)] if tier == "quick" else
+        [("fixtures",), ("names",), ("variants",), ("entries",), ("provoke",), ("types",), ("gen", "vertex", seed, 12000), ("gen", "general", seed, 5000), ("gen", "entries", seed, 2000)]),
     opts=q_opts([0, 17, 37, 48], [0, 17, 37, 48, 53, 22]),
     extra=extra_c07,
     rule="cases: fixtures + generator profiles vertex/general/entries (input structs with f32/i32/u32 scalars and vec2-4, arbitrary non-dense and unordered location numbers, builtins "
@@ -921,7 +941,7 @@ PROPS["C10"] = dict(
     lean_modules=["WgslVerif.Props.C10"],
     theorems=["WgslVerif.C10_leaf", "WgslVerif.C10_struct_algorithm", "WgslVerif.C10_offsets_partial"],
     driver_props=["C10"],
-    streams=lambda tier, seed: [("gen", "structs", seed, 100 if tier == "quick" else 3000), ("fixtures",), ("types",)],
+    streams=lambda tier, seed: [("gen", "structs", seed, 100 if tier == "quick" else 3000), ("fixtures",), ("types",), ("names",), ("variants",)],
     opts=q_opts([20, 68, 21], [20, 22, 68, 21, 23]),
     extra=extra_c10,
     rule="cases: generator profiles structs/general under encase + glam; every emitted ShaderType struct is constructed with sentinel values, written through the REAL "
@@ -948,7 +968,7 @@ C01_SECONDARY = [r"the trait `Copy` cannot be implemented", r"cannot find type",
 def extra_c01(pid, tier, seed, workdir, known, write_replay):
     """rustc (cargo check) on the real generated modules against the real wgpu 24 / bytemuck / encase / glam / serde (harness `batch check`)"""
     n = 1 if tier == "quick" else 10
-    cases = write_stream_file([("fixtures",), ("names", 4 if tier == "quick" else 1, seed), ("types", 9 if tier == "quick" else 1, seed), ("gen", "structs", seed, 20 * n), ("gen", "general", seed, 25 * n), ("gen", "vertex", seed, 12 * n),
+    cases = write_stream_file([("fixtures",), ("names", 9 if tier == "quick" else 1, seed), ("entries", 8 if tier == "quick" else 1, seed), ("variants",), ("types", 11 if tier == "quick" else 1, seed), ("gen", "structs", seed, 20 * n), ("gen", "general", seed, 25 * n), ("gen", "vertex", seed, 12 * n),
                                ("gen", "consts", seed, 12 * n), ("gen", "entries", seed, 12 * n), ("gen", "textures", seed, 8 * n), ("gen", "unicode", seed, 8 * n)],
                               os.path.join(workdir, "c01.cases"))
     case_by_id = {}
@@ -1061,7 +1081,7 @@ PROPS["C01"] = dict(
               "WgslVerif.C01_keywords", "WgslVerif.C01_capture", "WgslVerif.rustType_leaf", "WgslVerif.rustType_named",
               "WgslVerif.namesBenignB_sound", "WgslVerif.deriveBenignB_sound", "WgslVerif.shadowBenignB_sound"],
     driver_props=["ALL"],
-    streams=lambda tier, seed: [("fixtures",), ("gen", "general", seed, 150 if tier == "quick" else 4000), ("gen", "structs", seed, 80 if tier == "quick" else 2000),
+    streams=lambda tier, seed: [("fixtures",), ("genpath", "general", seed, 42 if tier == "quick" else 400), ("provoke",), ("gen", "general", seed, 150 if tier == "quick" else 4000), ("gen", "structs", seed, 80 if tier == "quick" else 2000),
                                 ("gen", "unicode", seed, 50 if tier == "quick" else 1000)],
     opts=q_opts([0, 7, 21, 38, 47, 90], list(range(0, 96, 5))),
     extra=extra_c01,
